@@ -130,7 +130,7 @@ def check_method(res, model, method, scripts, tab):
         dt, y0 = (100.0, 5.0) if k % 3 else (3.0e7, 0.25)
         case = {"kind": "c19", "method": method, "script": script_text(cs, rs), "dt": dt, "y0": y0}
         out = run_bin(exe, d, script_text(cs, rs), repr(dt), repr(y0))
-        if len(out) != 5:
+        if len(out) != 6:
             res.violation("correspondence", f"{method}: mock run produced {out}", case)
             continue
         flag, y, calls, reinits, logged = int(out[0]), float(out[1]), int(out[2]), int(out[3]), int(out[4])
@@ -143,6 +143,9 @@ def check_method(res, model, method, scripts, tab):
             res.violation("oracle", f"{method}: Solve returns success but the state advanced by {y - y0!r}, requested {dt!r} (script {script_text(cs, rs)[:200]})", case)
         if flag != 0 and not logged:
             res.violation("oracle", f"{method}: Solve returns failure but the initial state is not in the error record", case)
+        if flag != 0 and logged and abs(float(out[5]) - y0) > 1e-6 * abs(y0):
+            res.violation("oracle", f"{method}: Solve returns failure and logs y[0] = {float(out[5])!r} as the initial condition, but it was called with {y0!r} "
+                                    f"(script {script_text(cs, rs)[:200]})", case)
         if flag == 0 and logged:
             res.violation("oracle", f"{method}: Solve returns success but logs an unrecoverable error", case)
         if not fails and (flag != 0 or calls != 1):
